@@ -3,6 +3,8 @@ package main
 import (
 	"encoding/binary"
 	"fmt"
+
+	"github.com/douban/gobeansdb/quicklz"
 )
 
 // A Plan is the structured, minimisable description of one simulated world: configuration,
@@ -85,6 +87,8 @@ const (
 	VMixed // compressible head + random tail
 	VNumber
 	VZeroHash // value whose 16-bit value hash is 0 (the hash a delete payload carries)
+	VQlz       // a well-formed QuickLZ stream (what a client that compresses with QuickLZ itself stores, with the client-compressed flag)
+	VQlzStored // bytes that happen to look like a short "stored" QuickLZ header (e.g. a zlib stream: 78 9c ... of exactly 0x9c bytes)
 	numVClasses
 )
 
@@ -141,6 +145,32 @@ func makeValue(v ValSpec, id int) []byte {
 	case VNumber:
 		s := fmt.Sprintf("%d", int64(v.Seed%100000)-50000)
 		return []byte(s)
+	case VQlz:
+		// Len is the length of the text that the "client" compressed
+		src := makeValue(ValSpec{Class: VText, Len: n, Seed: v.Seed}, id)
+		if len(src) < 8 {
+			src = []byte(fmt.Sprintf("<%d>qlz-client-text", id))
+		}
+		return quicklz.Compress(src, 3)
+	case VQlzStored:
+		if n < 8 {
+			n = 8
+		}
+		if n > 255 {
+			n = 255
+		}
+		b = make([]byte, n)
+		for i := range b {
+			b[i] = byte(r.U64())
+		}
+		b[0] = []byte{0x78, 0x78, 0x0c, 0x00, 0x04}[v.Seed%5] // bit 0 clear: not compressed, bit 1 clear: 3-byte header
+		b[1] = byte(n)                                         // "compressed size" = total length
+		b[2] = byte(n - 3 - int(v.Seed>>8)%3)                  // "decompressed size"
+		tag := fmt.Sprintf("<%d>", id)
+		if 3+len(tag) <= n {
+			copy(b[3:], tag)
+		}
+		return b
 	case VZeroHash:
 		if n < 12 {
 			n = 12
